@@ -36,6 +36,8 @@ type Inst struct {
 	Sock string
 	Tx   *rawrpc.Conn
 	Mons []*Mon
+	// Decorate, when set, may rewrite a txn event before it is emitted (the model API runs record theirs as "apitxn")
+	Decorate func(ev map[string]interface{})
 }
 
 // Mon is one monitor held by a raw peer connection.
@@ -475,6 +477,9 @@ func (in *Inst) RecordTxn(rec *Recorder, aops []abs.AOp, results []*ovsdb.Operat
 	ev := map[string]interface{}{
 		"ev": "txn", "db": in.ID, "ops": aops, "results": ares, "committed": errIdx == 0 && commitErr == "",
 		"errIdx": errIdx, "errKind": errKind, "post": dump, "refs": refs, "notifs": notifs, "commitErr": commitErr,
+	}
+	if in.Decorate != nil {
+		in.Decorate(ev)
 	}
 	if err := rec.Emit(ev); err != nil {
 		return nil, err
